@@ -274,6 +274,54 @@ def numeric_visitors(rep, F, rule='VISITOR-EXACT'):
     return n
 
 
+def zero_not_padded(rep, F, rule='JSON-GRAMMAR'):
+    """the JSON-number adapters serialise the Display text through serde_json::Number::from_str, whose grammar has no
+    leading zeros.  Display right-pads integer-valued decimals (scale <= 0) with zeros; for the value zero that turns "0"
+    into "00".  Necessary condition: wherever the padding routine is handed a non-constant zero count, the path has
+    excluded the value zero (sign != NoSign / !is_zero)"""
+    n = 0
+    for fn in F.real_fns():
+        if fn.is_closure or not any(re.search(r'zero_right_pad_integer_ascii_digits$', (t['callee'].get('resolved') or '')) for b, t in fn.calls()):
+            continue
+        try:
+            pe = TB.PathEnum(F, fn, max_paths=400, cut_loops=True)
+            paths = pe.run()
+        except TB.Undecided as e:
+            rep.undecided(rule, fn.key + ':zero-is-not-padded', str(e), fn.where())
+            continue
+        n += 1
+        bad = ok = 0
+        for (atoms, out), eff in zip(paths, pe.effects):
+            calls = [args for c, args in eff if TB._plain(c).endswith('zero_right_pad_integer_ascii_digits')]
+            if not calls:
+                continue
+            maybe_zero = True
+            for a, c in atoms:
+                s0 = TB.show(TB.strip_refs(a[0] if False else a))
+                if re.match(r'^discr\((arg\d+\.sign|sign\(arg\d+\))\)$', s0):
+                    if c[0] == 'eq':
+                        maybe_zero = (c[1] == 1)
+                    else:
+                        maybe_zero = 1 not in c[1]
+                elif re.match(r'^(Eq|Ne)\((arg\d+\.sign|sign\(arg\d+\)),Sign::NoSign\)$', s0):
+                    truth = not (c == ('eq', 0))
+                    maybe_zero = truth if s0.startswith('Eq') else (not truth)
+                elif re.match(r'^is_zero\(arg\d+(\.digits|\.int_val)?\)$', s0):
+                    maybe_zero = not (c == ('eq', 0))
+            for args in calls:
+                cnt = TB.strip_refs(args[1])
+                if maybe_zero and cnt != TB.T('const', 0):
+                    bad += 1
+                else:
+                    ok += 1
+        key = fn.key + ':zero-is-not-padded'
+        if bad:
+            rep.violation(rule, key, 'on %d path(s) the value may be zero and is still handed to the right-padding routine with the zero count -scale: a zero with negative scale prints as "00", which serde_json::Number::from_str rejects (json_num cannot serialise it)' % bad, fn.where())
+        elif ok:
+            rep.ok(rule, key, '%d padding call(s): a zero value is padded by 0 zeros' % ok, fn.where())
+    return n
+
+
 def run_config(ctx, feat):
     rep = ctx.rep
     Fd = ctx.facts(feat, 'dbg')
@@ -289,6 +337,8 @@ def run_config(ctx, feat):
     nl = sibling_limit(rep, Fr, Fr._prov)
     sibling_signatures(rep, Fr)
     nv = numeric_visitors(rep, Fr)
+    nz = zero_not_padded(rep, Fr)
+    rep.floor('callers of the zero-padding routine', nz, 1)
     rep.floor('numeric visitor methods', nv, 6)
     return len(ents_d), nsites, nf, ns, nl
 
@@ -299,7 +349,7 @@ def run(ctx):
                        'R-NOCALL: no float conversion/parse/cast is reachable from visit_str, visit_map or the two JSON-number adapters (float visitors '
                        'are cut: they are C14\'s subject). R-PANIC: every may-panic site on those paths is discharged or reviewed (debug-profile facts). '
                        'SIBLING-LIMIT: both adapters compare the scale with the generated SERDE_SCALE_LIMIT. R-FWD: Serialize is collect_str(self) and the '
-                       'adapters serialise Number::from_str(Display text). VISITOR-EXACT: in every visit_<integer|float> method the handed-over value reaches only the exact From<int>/TryFrom<float> converters - no lossy cast, arithmetic or text rendering on the way. NOT decided: round-trip equality; the "00" rendering of a zero with negative scale.')
+                       'adapters serialise Number::from_str(Display text). VISITOR-EXACT: in every visit_<integer|float> method the handed-over value reaches only the exact From<int>/TryFrom<float> converters - no lossy cast, arithmetic or text rendering on the way. JSON-GRAMMAR: Display never right-pads the value zero (no "00", which the JSON number grammar rejects). NOT decided: round-trip equality.')
     ne, nsites, nf, ns, nl = run_config(ctx, 'serde')
     rep.floor('deserialisation entries', ne, 4)
     rep.floor('may-panic sites', nsites, 10)
